@@ -76,6 +76,10 @@ def run(ctx):
                      None, {k: sites.count(k) for k in sorted(set(sites))}, {"draw": 3, "debug": "any"})
     ss = S.generate(ctx, 14 if ctx.quick else 100, 3 if ctx.quick else 6, max_e=6, max_loops=4, routings_per_graph=1,
                     kinds=("uniform", "tiny_xi", "corner"))
+    # weakly coupled loops (the shared propagator has a parameter 1e-9 .. 1e-100 of the others): terms far below an f64 ulp of the
+    # quantity they are added to or subtracted from still count in a wider type
+    ss += S.generate(ctx, 4 if ctx.quick else 16, 10, max_e=5, max_loops=3, routings_per_graph=1, kinds=("small_xi", "small_xi", "tiny_xi"),
+                     names=["sunrise", "double_triangle", "banana4", "sunrise"], variant="fundamental")
     for k, s in enumerate(ss):
         # every other sample runs with the matrix stability test on (a comparison made on the user's type, not a narrowing)
         s["req"] = S.sample_request(s["case"], s["routing"], s["table"], s["xs"], debug=False, meta=True, tol=(1e-6 if k % 2 else None))
@@ -133,3 +137,100 @@ def run(ctx):
                 ctx.violation(f"with a double-double scalar {name} agrees with the exact value only to {float(err):.2e} (tolerance {float(tl):.2e}): precision of the user's type is lost",
                               req, expected=f"<= {float(tl):.2e}", observed=float(err)); break
         ctx.extra["worst_dd_error_over_tolerance"] = max(ctx.extra.get("worst_dd_error_over_tolerance", 0.0), float(worst))
+
+    # ---- a user's point need not consist of f64 values: double-double coordinates with a non-zero low part. The ratio of the Feynman
+    # parameters of two consecutively removed edges is xi^(1/omega) for the xi drawn between them (C07), whatever the rescaling: it
+    # follows the low part of xi to the precision of the type - in particular for xi strictly between 1 - 2^-53 and 1
+    from mpmath import mp, mpf
+    mp.dps = 60
+    rng = ctx.rng
+    lreqs, linfo = [], []
+    for s in [s for s in ss if s.get("impl_f64_order") is None][: (24 if ctx.quick else 150)]:
+        c = s["case"]; n = len(c["edges"])
+        if n < 2:
+            continue
+        k = rng.randrange(n - 1)                       # the xi drawn after removal k+1
+        slot = 2 * k + 1
+        hi = list(s["xs"]); lo = [0.0] * len(hi)
+        mode = rng.choice(["just_below_one", "just_below_one", "low_part", "low_part_negative"])
+        if mode == "just_below_one":
+            hi[slot] = 1.0; lo[slot] = -10.0 ** -rng.randint(18, 25)
+        else:
+            hi[slot] = min(max(hi[slot], 0.05), 0.95)
+            lo[slot] = hi[slot] * 2.0 ** -rng.randint(56, 90) * (-1 if mode.endswith("negative") else 1)
+        rq = dict(S.sample_request(c, s["routing"], s["table"], hi, debug=False, meta=True), op="sample_dd", x_lo=[f2b(v) for v in lo])
+        lreqs.append(rq); linfo.append((s, k, slot, hi, lo, mode))
+    # the removal order at these points: the f64 hook on the high parts (xi = 1.0 is a legal f64 coordinate for this purpose)
+    # (the order depends on the edge-choice coordinates only: every xi is set to 1/2 so that the parameters are strictly decreasing)
+    oreqs = [{"op": "perm", "table": s["table"],
+              "x": [f2b(0.5 if (i % 2 == 1 and i < 2 * len(s["case"]["edges"]) - 2) else v) for i, v in enumerate(hi)]} for (s, k, slot, hi, lo, mode) in linfo]
+    for rq, d, o, (s, k, slot, hi, lo, mode) in zip(lreqs, run_harness(lreqs), run_harness(oreqs), linfo):
+        c = s["case"]; n = len(c["edges"])
+        ctx.case(["dd_low_part", rq["x"], rq["x_lo"], c["edges"]], nontrivial=True); ctx.count("dd_low_part." + mode); ctx.count(f"dd_low_part.{d.get('status')}")
+        req = dict(S.small_req(s), x=rq["x"], x_lo=rq["x_lo"])
+        if d.get("status") == "panic":
+            ctx.violation("sample panicked with a double-double point", req, observed=d.get("msg")); continue
+        xpre = (o.get("log") or {}).get("momtrop_feynman_parameter_no_rescaling")
+        if "x" not in d or not xpre or not SC.finite(d["x"]) or not SC.finite(xpre):
+            continue
+        xp = [b2f(b) for b in xpre]
+        order = sorted(range(n), key=lambda e: (-xp[e], e))
+        if len(set(xp)) < n:
+            ctx.count("dd_low_part.ties_in_order_skipped"); continue
+        removed = 0
+        for e in order[: k + 1]:
+            removed |= 1 << e
+        mask = ((1 << n) - 1) & ~removed
+        om = Fraction(b2f(s["table"]["entries"][mask][3]))
+        xd = [ddf(p) for p in d["x"]]
+        a_, b_ = xd[order[k]], xd[order[k + 1]]
+        if a_ <= 0 or b_ <= 0 or om <= 0:
+            continue
+        xi = Fraction(hi[slot]) + Fraction(lo[slot])
+        expv = (mpf(xi.numerator) / mpf(xi.denominator)) ** (mpf(om.denominator) / mpf(om.numerator))
+        got = mpf(b_.numerator) / mpf(b_.denominator) / (mpf(a_.numerator) / mpf(a_.denominator))
+        err = abs(got / expv - 1)
+        tolr = mpf(10) ** -26 * (1 + 1 / mpf(float(om)))
+        ctx.extra["worst_dd_low_part_error"] = max(ctx.extra.get("worst_dd_low_part_error", 0.0), float(err))
+        if err > tolr:
+            ctx.violation(f"double-double point, xi = {hi[slot]!r} + {lo[slot]!r}: the ratio of the Feynman parameters of the edges removed before/after this draw is "
+                          f"{mp.nstr(got, 32)}, but xi^(1/omega) = {mp.nstr(expv, 32)} (relative difference {mp.nstr(err, 3)}): the low part of the user's coordinate is lost",
+                          req, expected=mp.nstr(expv, 32), observed=mp.nstr(got, 32))
+
+    # ---- the matrix routine itself with the double-double scalar on SPD matrices (weakly coupled, sparse, random, L-like): determinant,
+    # inverse and factors keep the precision of the type (errors ~1e-30 cond), also where an f64 computation could drop terms
+    from .. import gen
+    mreqs, minfo = [], []
+    fams = [f for f in gen.SPD_FAMILIES if f[0] in ("weak_coupling", "sparse_pattern", "random", "graph", "integer")]
+    for n in range(2, 7):
+        for fam, f in fams:
+            made = 0
+            for _ in range(40):
+                if made >= (3 if ctx.quick else 20) * (3 if fam == "weak_coupling" else 1):
+                    break
+                A = f(rng, n)
+                Af = [[Fraction(v) for v in row] for row in A]
+                if not X.leading_minors_positive(Af):
+                    continue
+                cond = X.cond_inf(Af)
+                if cond is None or cond > 10 ** 8:
+                    continue
+                made += 1
+                mreqs.append({"op": "decomp_dd", "n": n, "a": gen.flat_bits(A)}); minfo.append((n, fam, Af, cond))
+    for rq, d, (n, fam, Af, cond) in zip(mreqs, run_harness(mreqs), minfo):
+        ctx.case(["decomp_dd", rq["a"]], nontrivial=n >= 3); ctx.count("decomp_dd." + fam); ctx.count(f"decomp_dd.{d.get('status')}")
+        if d.get("status") != "ok":
+            ctx.violation(f"decompose_for_tropical with a double-double scalar returned {d.get('status')} for an SPD matrix (cond {float(cond):.1e})", rq, observed=d); continue
+        if not SC.finite([d["det"], d["inv"], d["qt"], d["qti"]]):
+            ctx.violation("decompose_for_tropical with a double-double scalar returned a non-finite value for an SPD matrix", rq, observed="non-finite"); continue
+        tol = Fraction(1, 10 ** 26) * n * n * cond
+        inv = [[ddf(d["inv"][i * n + j]) for j in range(n)] for i in range(n)]
+        qt = [[ddf(d["qt"][i * n + j]) for j in range(n)] for i in range(n)]
+        Ai = X.inverse(Af); dt = X.det(Af)
+        errs = [("determinant", abs(ddf(d["det"]) - dt) / dt), ("inverse", X.max_abs(X.sub(inv, Ai)) / X.max_abs(Ai)),
+                ("q_transposed^T q_transposed", X.max_abs(X.sub(X.matmul(X.transpose(qt), qt), Af)) / X.max_abs(Af))]
+        for name, err in errs:
+            ctx.extra["worst_dd_matrix_error_over_tolerance"] = max(ctx.extra.get("worst_dd_matrix_error_over_tolerance", 0.0), float(err / tol))
+            if err > tol:
+                ctx.violation(f"matrix routine with a double-double scalar ({fam}, n={n}, cond {float(cond):.1e}): {name} is accurate to {float(err):.2e} only "
+                              f"(tolerance {float(tol):.2e}): precision of the user's type is lost", rq, expected=f"<= {float(tol):.2e}", observed=float(err)); break
